@@ -466,6 +466,15 @@ theorem C03_safe_parents_repaired (o : Obj) (fuel : Option Nat) :
     Safe o.pid (Fe.parentsFuel cfg repairedParentsCatch o fuel) := by
   rw [cfg_good]; exact safe_of_tri (parentsFuel_repaired _ o fuel)
 
+/-- round 2, candidate repair "an ancestor that vanished ends the walk" (`except NoSuchProcess: break`, what parent()
+    itself does for a vanished parent and children() for a vanished child): it removes the NoSuchProcess(ancestor)
+    half of the finding — the witness plan then returns the chain found so far — but NOT the AccessDenied half: the
+    full statement stays false, so the finding stays (see notes/C03.md, "parents(): repair decision") -/
+example : (Fe.parentsFuel (goodCfg true) ["NoSuchProcess"] w1.obj none ⟨w1, alwaysAlive, denyAt 7 .EACCES⟩ {}).1
+    = .ok (.procs [101]) := by decide +kernel
+example : (Fe.parentsFuel (goodCfg true) ["NoSuchProcess"] w1.obj none ⟨w1, alwaysAlive, denyAt 9 .EACCES⟩ {}).1
+    = .error (.ad 101) := by decide +kernel
+
 /-- the witness plan on the repaired walk: the chain found so far -/
 example : (Fe.parentsFuel (goodCfg true) repairedParentsCatch w1.obj none
     ⟨w1, alwaysAlive, denyAt 7 .EACCES⟩ {}).1 = .ok (.procs [101]) := by decide +kernel
